@@ -12,7 +12,7 @@
    The matmul closure is any function on column lists that multiplies flat column j by a matrix [Am j]
    ([col_linear]; the dense closure of a tensor argument is one: [cg_dense_closure_linear]).
    All sizes n, all numbers of columns / batch members C, all iteration limits, all settings: universally
-   quantified.  Theorems 10-15 are about REGULAR stretches of a run: loop bodies in which no threshold fires on the
+   quantified.  Theorems 10-17 are about REGULAR stretches of a run: loop bodies in which no threshold fires on the
    column ([run_regular]: not frozen, p^T A p >= eps, r^T z >= eps, so both quotients are exact) — the regime
    "above the accuracy floor" of the property text; there the run is textbook (preconditioned) CG.
    NOT proved here: the Chebyshev rate 2((sqrt k - 1)/(sqrt k + 1))^j (see design_notes/C08.md). *)
